@@ -176,7 +176,10 @@ func (p *Program) selectFunctions(prop string, pc *PropConfig) (ids []string, sw
 	goTargets := p.goTargetFuncs()
 	for id := range set {
 		if fn := p.Funcs[id]; fn != nil && fn.Parent() != nil && !goTargets[fn] {
-			continue
+			// ... and closures that carry a contract of their own (callbacks handed to library functions)
+			if _, own := p.Contracts.Funcs[id]; !own {
+				continue
+			}
 		}
 		ids = append(ids, id)
 	}
